@@ -30,6 +30,28 @@ def build(am, with_bond_types=True):
     return g
 
 
+def scramble(g, rng):
+    """Another description of the same labelled data as an nx.Graph: node labels renamed by a random
+    injection into (possibly non-contiguous) integers, nodes inserted in an order unrelated to their
+    labels, edges inserted in random order and orientation; every attribute carried."""
+    nodes = list(g.nodes)
+    n = len(nodes)
+    pool = rng.sample(range(3 * n + 2), n) if rng.random() < .5 else rng.sample(range(n), n)
+    ren = dict(zip(nodes, pool))
+    order = nodes[:]
+    rng.shuffle(order)
+    h = nx.Graph()
+    for a in order:
+        h.add_node(ren[a], **copy.deepcopy(g.nodes[a]))
+    edges = list(g.edges(data=True))
+    rng.shuffle(edges)
+    for u, v, d in edges:
+        if rng.random() < .5:
+            u, v = v, u
+        h.add_edge(ren[u], ren[v], **copy.deepcopy(d))
+    return h
+
+
 def classes_by_orig(c):
     return {d[TRACER]: d["partition"] for _, d in c.nodes(data=True)}
 
@@ -150,8 +172,20 @@ def check_one(run, model, am, opts, nrel, rng, groups=None):
         for k in range(nrel):
             am2, p = relist(am, rng)
             g2 = build(am2)
+            if k % 2 == 1:
+                # labels unrelated to the listing position (e.g. the result of nx.relabel_nodes)
+                g2 = scramble(g2, rng)
             c2 = impl.canonicalize_molecule(g2)
             run.evaluations += 1
+            if "K4" in opts and k % 2 == 1:
+                # the model on a description whose labels are unrelated to the listing order
+                a2, b2 = impl.to_model(g2)
+                run.comp("K4")["cases"] += 1
+                P2m = classes_by_orig(c2)
+                ans = model.q("classes " + enc_mol(a2, b2))
+                exp = "ok " + " ".join(str(P2m[g2.nodes[a][TRACER]]) for a, *_ in a2)
+                if ans != exp:
+                    diff("K4", "partition classes differ (labels unrelated to listing order)", {"model": ans, "impl": exp, "relisted": am_json(am2)})
             if "K6" in opts:
                 run.comp("K6")["cases"] += 1
             if opts & {"C04", "K6"}:
